@@ -25,8 +25,13 @@ def run_seed(name):
         man = json.load(open(os.path.join(VERIF, "MANIFEST.json")))
         env = dict(os.environ, VERIF_REPO=d, VERIF_EVIDENCE_DIR=d + "/ev")
         out = {}
+        only = [x for x in os.environ.get("SEED_CHECKS", "").split(",") if x]
         for c in man["checks"]:
             pid = c["property_id"]
+            if os.environ.get("SEED_OWN_ONLY") and pid != name[:3]:
+                continue
+            if only and pid not in only and pid != name[:3]:
+                continue
             rr = subprocess.run([os.path.join(VERIF, "check"), pid], cwd=VERIF, env=env, capture_output=True, text=True)
             rules = []
             for line in rr.stdout.split("\n"):
@@ -53,7 +58,7 @@ def main():
         print("%-36s own-check:%-8s reported by: %s" % (
             n, "CAUGHT" if own in r and r[own].get("exit") == 1 else "MISSED",
             ", ".join("%s(%s)" % (k, "/".join(v.get("rules", [])[:2])) for k, v in sorted(r.items()) if isinstance(v, dict) and "exit" in v)))
-    if len(sys.argv) == 1:
+    if len(sys.argv) == 1 and not os.environ.get("SEED_OWN_ONLY") and not os.environ.get("SEED_CHECKS"):
         json.dump(res, open(os.path.join(VERIF, "seeded", "MATRIX.json"), "w"), indent=1)
 
 
